@@ -155,6 +155,8 @@ func (r *Recorder) Bind(e *env.Env) {
 		return int64(len(nums))
 	})
 	e.Define("hcb", func(f func()) { r.ev("hcb"); f() })
+	e.Define("hcbe", func(f func() error) { r.ev("hcbe"); _ = f() })
+	e.Define("hcbv", func(f func() (interface{}, error)) { r.ev("hcbv"); _, _ = f() })
 	e.Define("heach", func(l []interface{}, f func(interface{})) {
 		r.ev("heach " + fmt.Sprint(len(l)))
 		for _, el := range l {
